@@ -58,7 +58,17 @@ EXE = "drv_c07"
 
 # ------------------------------------------------------------------------------------------ one case, any family
 def _impl(case: dict) -> Tuple[List[str], List[str], List[str]]:
-    """(implementation answers, model lines, oracle complaints) of one case of any family."""
+    """(implementation answers, model lines, oracle complaints) of one case of any family.  An exception the implementation raises
+    where the rigs expect none is its ANSWER on this input (disagrees with the model at line 0; the case is the replay)."""
+    try:
+        return _impl_raw(case)
+    except Exception as e:  # noqa: BLE001
+        import traceback
+        where = [f"{f.name}:{f.lineno}" for f in traceback.extract_tb(e.__traceback__) if "/primaite/" in f.filename][-1:]
+        return [f"exception:{type(e).__name__} at {where[0] if where else '?'}"], ["reset"], []
+
+
+def _impl_raw(case: dict) -> Tuple[List[str], List[str], List[str]]:
     fam = case.get("family", "list")
     if fam == "list":
         impl, slots, preload = rig.run_impl(case)
@@ -106,6 +116,8 @@ def _sig(case: dict, lines: List[str], i: int, complaints: List[str]) -> dict:
     fam = case.get("family", "list")
     if i < 0 and complaints:
         return {"kind": "oracle", "family": fam, "what": "ping-vs-verdicts"}
+    if i == 0 and lines == ["reset"]:
+        return {"kind": "impl-exception", "family": fam, "host": case.get("host") or case.get("kind") or case.get("surface")}
     d = _op_of_line(case, lines, i)
     if fam == "list":
         sig = {"kind": "model-vs-impl", "op": d["op"], "surface": case["surface"]}
@@ -188,6 +200,8 @@ def run(ctx: Ctx):
     for f in sorted((VERIF / "corpus" / "C07").glob("*.json")):
         cases.append(("corpus:" + f.name, json.loads(f.read_text())["case"]))
     cases.append(("sweep:firewall-lists", _sweep_case()))
+    cases.append(("sweep:wildcards-src", rig.wildcard_sweep_case("src")))
+    cases.append(("sweep:wildcards-dst", rig.wildcard_sweep_case("dst")))
     cases.append(("wf:exhaustive", {"family": "wf"}))
     rng = ctx.rng.fork("acl")
     for k in range(ctx.scale(400, 8000)):
